@@ -23,6 +23,7 @@ type scanner struct {
 	// panicked holds the message of the first conversion call that panicked
 	panicked string
 	calls    int
+	chk      []uint64
 }
 
 // scanPartial counts the conversions whose operands ended in a partly filled frame.
@@ -127,6 +128,20 @@ func (s *scanner) conv(in []uint64) []uint64 {
 	}
 	if s.panicked != "" {
 		return s.out[:n] // the caller reports it; the operands may be in no state to be read
+	}
+	if s.calls%4 == 1 {
+		// the source must hold what was put into it
+		if s.chk == nil {
+			s.chk = make([]uint64, chunkN)
+		}
+		back := s.chk[:n]
+		s.cv.S.Drain(src, back)
+		for i := range back {
+			if back[i] != in[i] {
+				s.panicked = fmt.Sprintf("(no panic, but) the conversion changed its source: position %d held carrier %#x before the call and %#x after it", i, in[i], back[i])
+				return s.out[:n]
+			}
+		}
 	}
 	s.cv.D.Drain(dst, s.out[:n])
 	return s.out[:n]
